@@ -316,7 +316,8 @@ def gen_candset_inputs(rng, tier, n):
                    which=rng.choice(['overlap', 'size', 'prefix', 'position', 'suffix']),
                    M=rng.choice(['JACCARD', 'COSINE', 'DICE']), op=rng.choice(['>=', '>', '=']),
                    score=rng.random() < 0.5, outs=rng.random() < 0.5, cache=rng.random() < 0.5,
-                   comp=rng.choice(['>=', '>', '<=', '<', '=', '!=']), tokenized=rng.random() < 0.6)
+                   comp=rng.choice(['>=', '>', '<=', '<', '=', '!=']), tokenized=rng.random() < 0.6,
+                   selfjoin=rng.random() < 0.25)
 
 
 def _candset(a):
@@ -384,6 +385,8 @@ class ApplyMatcher(object):
         m = re.match(r'(>=|<=|!=|=>|>|<|=)-(tokenizer|no-tokenizer|none|direct|cache)', case or '')
         op = m.group(1) if m and m.group(1) in OPS else a['comp']
         tokenized = (m.group(2) not in ('no-tokenizer', 'none')) if m else a['tokenized']
+        if a.get('selfjoin'):
+            return self.check_selfjoin(a, op, tokenized)
         lt, rt = _frames(a)
         cs = _candset(a)
         lt0, rt0, cs0 = lt.copy(deep=True), rt.copy(deep=True), cs.copy(deep=True)
@@ -438,6 +441,56 @@ class ApplyMatcher(object):
         return None
 
 
+def _check_selfjoin(self, a, op, tokenized):
+    """the same DataFrame object on both sides, matched on two different columns"""
+    import pandas as pd
+    from py_stringmatching import WhitespaceTokenizer
+    from py_stringsimjoin.matcher.apply_matcher import apply_matcher
+    vals = a['l'] + a['r']
+    n = len(vals)
+    idx = [3 + 2 * i for i in range(n)]
+    T_ = pd.DataFrame({'id': pd.Series(['k%d' % i for i in range(n)], index=idx, dtype=object),
+                       'name': pd.Series(vals, index=idx, dtype=object),
+                       'alias': pd.Series(list(reversed(vals)), index=idx, dtype=object)}, index=idx)
+    pairs = [(i, j) for i in range(n) for j in range(n) if (i * 7 + j * 3) % 4 != 0]
+    cs = pd.DataFrame({'_id': pd.Series(list(range(10, 10 + len(pairs))), dtype=object),
+                       'l_id': pd.Series(['k%d' % i for i, _ in pairs], dtype=object),
+                       'r_id': pd.Series(['k%d' % j for _, j in pairs], dtype=object)}, columns=['_id', 'l_id', 'r_id'])
+    T0, cs0 = T_.copy(deep=True), cs.copy(deep=True)
+    tok = WhitespaceTokenizer(return_set=True) if tokenized else None
+    if tokenized:
+        simf = lambda x, y: float(len(set(x) & set(y))) / len(set(x) | set(y)) if (set(x) or set(y)) else 1.0
+    else:
+        simf = lambda x, y: float(abs(len(x) - len(y))) / 4
+    out = apply_matcher(cs, 'l_id', 'r_id', T_, T_, 'id', 'id', 'name', 'alias', tok, simf, a['t'], op,
+                        a['allow_missing'], None, None, 'l_', 'r_', True, a['n_jobs'], False)
+    if not T_.equals(T0) or not cs.equals(cs0):
+        return 'an input table was modified'
+    if len(cs0) == 0:
+        return None if out.equals(cs0) else 'empty candidate set not returned as is'
+    want = []
+    rev = list(reversed(vals))
+    for k, (i, j) in enumerate(pairs):
+        lv, rv = vals[i], rev[j]
+        if miss(lv) or miss(rv):
+            if not a['allow_missing']:
+                continue
+            sc = float('nan')
+        else:
+            sc = simf(T(lv), T(rv)) if tokenized else simf(lv, rv)
+            if not OPS[op](sc, a['t']):
+                continue
+        want.append([10 + k, 'k%d' % i, 'k%d' % j, sc])
+    got = out.values.tolist()
+    same = lambda x, y: x == y or (miss(x) and miss(y))
+    if list(out.columns) != ['_id', 'l_id', 'r_id', '_sim_score'] or len(got) != len(want) or \
+            not all(all(same(x, y) for x, y in zip(g, w)) for g, w in zip(got, want)):
+        return 'apply_matcher self-join [%s, tokenizer=%r, n_jobs=%r] returned %r, expected %r' % (
+            op, tokenized, a['n_jobs'], got, want)
+    return None
+
+
+ApplyMatcher.check_selfjoin = _check_selfjoin
 alias(MAT + '_apply_matcher_split', MAT + 'apply_matcher')
 alias(MAT + 'generate_tokens', MAT + 'apply_matcher')
 
